@@ -32,21 +32,6 @@ theorem wf_addRoot (t : Tree) (p : Pid) (h : WF t) : WF (t.addRoot p).1 := by
   · simp only [length_aset_of_not_mem _ _ _ hnk]
     have := h.counter
     omega
-  · intro nm q hq
-    simp only [aget_aset] at hq
-    split at hq
-    · simp only [Option.some.injEq] at hq
-      subst hq
-      rename_i hnm
-      exact ⟨{ ref := t.next, pid := p, parent := none, watchers := [], watchees := [], desc := [] },
-        by rw [live_eq_some]; simp [aget_aset], hnm.symm⟩
-    · obtain ⟨n, hn, hname⟩ := h.names_live nm q hq
-      rw [live_eq_some] at hn
-      refine ⟨n, ?_, hname⟩
-      rw [live_eq_some]
-      simp only [aget_aset]
-      have : q.id ≠ p.id := by intro he; rw [he, hp] at hn; simp at hn
-      simp [this, hn]
   · intro a na w pw ha hw
     simp only [aget_aset] at ha
     split at ha
@@ -123,20 +108,6 @@ theorem wf_addNode (t : Tree) (a p : Pid) (h : WF t) : WF (t.addNode a p).1 := b
     have := h.counter
     simp only [modNode_length]
     omega
-  · intro nm q hq
-    simp only [aget_aset, modNode_names] at hq
-    split at hq
-    · simp only [Option.some.injEq] at hq
-      subst hq
-      rename_i hnm
-      exact ⟨{ ref := t.next, pid := p, parent := some ⟨a.id, pr⟩, watchers := [(a.id, a)], watchees := [], desc := [] },
-        by rw [live_eq_some]; simp [aget_aset], hnm.symm⟩
-    · obtain ⟨n, hn, hname⟩ := h.names_live nm q hq
-      rw [live_eq_some] at hn
-      have : q.id ≠ p.id := by intro he; rw [he, hp] at hn; simp at hn
-      refine ⟨addG a p t.next q.id n, ?_, by simpa using hname⟩
-      rw [live_eq_some]
-      simp [aget_aset, this, hg, hn]
   · intro x nx w pw hx hw
     simp only [aget_aset, hg] at hx
     split at hx
